@@ -324,6 +324,6 @@ pub fn def() -> PropDef {
         level: "exploration",
         rule: "histories of <=30 (thorough 60) ops over 8 paths from {register / re-register with another interval, delete, complete_compaction (target registered first, or unknown target as a separate class), get_chunks(range), list_chunks, get_chunk}; end points k*hour + {-1,0,+1,any i8} ns incl. negatives, zero-length, up to 10-day spans, inverted query ranges; applied to LocalMetadataClient and ObjectStoreMetadataClient; answers compared with a reference interval map and with each other. Non-trivial = a range query after a delete/compaction/re-registration whose expected answer is neither empty nor everything.",
         assumptions: &["for an inverted range either the empty set or the literal inequality answer is accepted; a panic, duplicates, dead chunks or disagreement on non-inverted ranges is not"],
-        subs: || vec![Box::new(Sub::<Case> { name: "history", cases: |t| t.scale(100_000, 8), strategy, exec })],
+        subs: || vec![Box::new(Sub::<Case> { name: "history", cases: |t| t.scale(250_000, 6), strategy, exec })],
     }
 }
